@@ -28,12 +28,29 @@ func loadEnvTable(c Obj) {
 	}
 }
 
-func preloadTables(lines [][]byte) {
-	for _, l := range lines {
+// tables announced inside a cases file are loaded before any case is executed
+var preloadHooks = []func(line []byte){
+	func(l []byte) {
 		if bytes.Contains(l, []byte(`"op":"envtable"`)) {
 			loadEnvTable(cwf.MustParse(l).(Obj))
 		}
+	},
+}
+
+func preloadTables(lines [][]byte) {
+	for _, l := range lines {
+		for _, h := range preloadHooks {
+			h(l)
+		}
 	}
+}
+
+func preloadFile(path string) {
+	var lines [][]byte
+	if err := readLines(path, func(l []byte) error { lines = append(lines, l); return nil }); err != nil {
+		fail(2, "read %s: %v", path, err)
+	}
+	preloadTables(lines)
 }
 
 func caseEnvs(c Obj) []cwf.Env {
